@@ -1,8 +1,8 @@
 (* C08 property theorems (verified checker): the critical-path graph is a forward-in-time DAG with typed, non-negative edges. *)
 From HTA.lib Require Import Base Dag.
 From HTA.gen Require Import CpRules_gen.
-From HTA.model Require Import C08_Model C08_Host C08_Dev.
-From HTA.proof Require Import C08_Proofs C08_HostProofs C08_DevProofs C08_RulesTie.
+From HTA.model Require Import C08_Model C08_Host C08_Dev C08_Clip.
+From HTA.proof Require Import C08_Proofs C08_HostProofs C08_DevProofs C08_RulesTie C08_ClipProofs.
 Open Scope Z_scope.
 
 Theorem C08_edges_forward_nonneg : forall zw clipped N E e, edge_ok zw clipped N E e = true ->
@@ -76,6 +76,19 @@ Proof.
   intros zw st r e H. destruct (dev_rules_are_generated zw st r e H) as [z [H1 [H2 _]]]. exists z. split; assumption.
 Qed.
 Print Assumptions C08_weights_follow_generated_rule.
+
+(* the analysed window: a host row is kept exactly when it starts in the window and lasts; a kept device row (other than a Stream
+   Wait Event record) has its launching / synchronising host row among the kept rows, for every frame and every window *)
+Theorem C08_window_closed : forall lo hi l,
+  (forall e, In e l -> stream e = -1 -> (In e (clip lo hi l) <-> lo <= ts e <= hi /\ 0 < dur e)) /\
+  (forall d, In d (clip lo hi l) -> stream d <> -1 -> name d <> "Stream Wait Event"%string ->
+     exists h, In h (clip lo hi l) /\ stream h = -1 /\ icorr h = idx d).
+Proof.
+  intros lo hi l. split.
+  - intros e Hin Hs. split; [intro H; apply (clip_host lo hi l e H Hs) | intros [H1 H2]; apply clip_host_complete; assumption].
+  - intros d H Hs Hn. apply (clip_closed lo hi l d H Hs Hn).
+Qed.
+Print Assumptions C08_window_closed.
 
 (* non-vacuity: launch call [0,2) launches kernel [5,9); a second kernel [9,12) on the stream; sync call [10,14) waits *)
 Definition cl08 : list ev :=
